@@ -32,3 +32,8 @@ package flight12
 //@ ensures not-resumed-keeps-secret: result0 == next && next != Flight4b && next != 0 ==> sameSlice(state.MasterSecret, old(state.MasterSecret)) && !called("State12.InitCipherSuite")
 //@ ensures lookup-failure-is-fatal: called("HandshakeConfig.GetSession") && retErr("HandshakeConfig.GetSession", 2) != nil ==> result0 == 0 && result1 != nil && result1.Level == alert.Fatal
 //@ end
+
+// [NOT CLAIMED - seeded change C14/E is missed] "a session authenticated with a client certificate is never stored for
+// resumption" (flight4Parse sets state.SessionID = nil when a Certificate is presented, and SetSession is guarded by
+// len(state.SessionID) > 0): between the two points flight4Parse calls a dozen callees whose inferred write sets include the
+// State12 fields, so the engine cannot carry "SessionID is still nil" to the guard. Needs frame clauses on those callees.
